@@ -502,11 +502,51 @@ function installTap(H) {
   const orig = proto.updateBytes;
   proto.updateBytes = function (data) {
     const r = orig.call(this, data);
-    if (TAPPED) TAPPED.push(Buffer.from(data)); // copy: callers may reuse the view
+    if (TAPPED && !MIRROR) TAPPED.push(Buffer.from(data)); // copy: callers may reuse the view
     return r;
   };
   proto.__tapped = true;
-  return true;
+  // Is the wrapped method still THE byte sink? A writer may keep a method of that name and feed short tokens to
+  // its buffer some other way (a benign rewrite did: encodeInto straight into a gathered buffer; the tap then saw
+  // nothing and every digest looked wrong - a false alarm of this check). On 200 single-block inputs:
+  //   digest = SHA-256(tapped bytes)            -> the tap is faithful, use it;
+  //   else digest = SHA-256(documented framing) -> the sink moved, the framing mirror is the byte stream;
+  //   else the tap shows exactly the documented framing -> the digest is wrong under both views: let the runs say so;
+  //   else nothing tells what the writer was given: harness error, not a verdict.
+  const rng = new Rng(1, "mirror", 0);
+  let tapOk = true, mirrorOk = true, sameBytes = true;
+  for (let i = 0; i < 200; i++) {
+    const w = new H.Hash256Writer();
+    const parts = [];
+    let total = 0;
+    const prev = TAPPED;
+    TAPPED = [];
+    for (let k = rng.range(0, 4); k > 0; k--) {
+      const op = [{ op: "tag", v: "ab" }, { op: "string", v: strOfBytes(rng, rng.range(0, 8)) }, { op: "number", v: rng.pick([0, 1.5, "NaN", "-0"]) }, { op: "boolean", v: rng.chance(1, 2) }, { op: "null" }][rng.below(5)];
+      const b = mirrorBytes(op);
+      if (total + b.length > 50) break;
+      total += b.length;
+      parts.push(b);
+      if (op.op === "tag") w.updateTag(op.v);
+      else if (op.op === "string") w.updateString(op.v);
+      else if (op.op === "number") w.updateNumber(numOf(op.v));
+      else if (op.op === "boolean") w.updateBoolean(op.v);
+      else w.updateNull();
+    }
+    const got = w.digestHex();
+    const tapBuf = Buffer.concat(TAPPED);
+    TAPPED = prev;
+    const mirBuf = Buffer.concat(parts);
+    if (createHash("sha256").update(tapBuf).digest("hex") !== got) tapOk = false;
+    if (createHash("sha256").update(mirBuf).digest("hex") !== got) mirrorOk = false;
+    if (!tapBuf.equals(mirBuf)) sameBytes = false;
+  }
+  if (tapOk) return true;
+  if (mirrorOk) {
+    MIRROR = true;
+    return true;
+  }
+  return sameBytes;
 }
 
 const BOUNDS = [55, 56, 57, 63, 64, 65, 119, 120, 121, 127, 128, 129, 191, 192, 193, 255, 256, 257, 319, 320, 321, 447, 448, 449, 511, 512, 513];
